@@ -173,6 +173,15 @@ def run_case(case: dict) -> Result:
     text1 = O.print_text(cp)
     own1 = ownership_map(cp)
     differs = text1 != text0 or own1 != own0
+    # "a deep copy equals its original" holds for every model, edited ones included
+    try:
+        cp2 = copy.deepcopy(cp)
+        s3 = sym(cp, cp2)
+    except Exception:  # noqa: BLE001 - C11's subject
+        s3 = True
+    if s3 is not True:
+        res.bad(f'edited-copy-unequal:{kind}:{owner_cls or "-"}.{pert.get("op", {}).get("prop", pert.get("how", ""))}',
+                f'after {pert} the edited document (printing {text1!r}) does not compare equal to its own deep copy (== gives {s3})')
     classes.add('pert:' + kind)
     s = sym(root, cp)
     key = f'{kind}:{owner_cls or "-"}.{pert.get("op", {}).get("prop", pert.get("how", ""))}'
@@ -309,6 +318,12 @@ def _enum_identical_comments():
 def jobs(tier: str) -> list[Job]:
     js = [Job('identical-comments', 'enum', _enum_identical_comments, exhaustive=True), Job('same-text-tokens', 'enum', lambda: iter([{'kind': 'tokens'}]), exhaustive=True),
           Job('pairs', 'hyp', lambda: _build(tier), 3000 if tier == 'quick' else 80000)]
+    js.append(Job('slot-sweep', 'enum', _slot_sweep, exhaustive=True))
     if tier != 'quick':
         js.append(Job('list-sweep', 'enum', _sweep, exhaustive=True))
     return js
+
+
+def _slot_sweep():
+    for c in sweeps.slot_sweep(per_key=2):
+        yield {'dirs': c['dirs'], 'claim': True, 'pert': {'p': 'op', 'op': c['ops'][0]}}
